@@ -1,18 +1,22 @@
 import PrimitivModel.Model.Spinlock
 import PrimitivModel.Model.SpinMixins
 import PrimitivModel.Driver.Util
+import Std.Data.HashMap
 /-
 Driver of the `spin` family.
 
   threads k spin|rspin      new scenario: a fresh lock and k threads (k ≤ 8), no programs yet
   prog t op…                program of thread t (ops: lock try_lock unlock); the thread runs up to its first access
   step t                    thread t performs its pending access and runs up to the next one
+  graph                     (model only) the reachable state graph of the current scenario: `ok n=<states> | i t j;…`
+                            (state i --step t--> state j; state 0 = the current state; only threads that are not done)
   ident new a | ident del a | ident get id
   default new a | default set a | default del a | default get
 
 `step t` answers
   ok <access> ret=<value returned by the call completed in this step | -> next=<pending access of t>
      flag=<0|1> owner=<thread|-> count=<n> holds=<threads holding, csv|-> pend=<pending access of every thread, csv>
+     left=<number of calls each thread has not started yet, csv>
 -/
 namespace Primitiv.Drv.SpinDrv
 open Primitiv Primitiv.Drv Primitiv.Lock
@@ -41,14 +45,47 @@ def spinLine (k : Nat) (s : Spin.Sys) (t : Nat) (ev : Spin.Event) : String :=
   let ts := List.range k
   let holds := (ts.filter (fun u => (s.thr u).hold)).map toString
   let pend := ts.map (fun u => Spin.pcName (s.thr u).pc)
-  s!"ok {ev.acc} ret={ev.ret} next={Spin.pcName (s.thr t).pc} flag={if s.flag then 1 else 0} owner=- count=0 holds={csvOr holds} pend={csvOr pend}"
+  let pos := ts.map (fun u => toString (s.thr u).rest.length)
+  s!"ok {ev.acc} ret={ev.ret} next={Spin.pcName (s.thr t).pc} flag={if s.flag then 1 else 0} owner=- count=0 holds={csvOr holds} pend={csvOr pend} left={csvOr pos}"
 
 def rspinLine (k : Nat) (s : RSpin.Sys) (t : Nat) (ev : Spin.Event) : String :=
   let ts := List.range k
   let holds := (ts.filter (fun u => (s.thr u).hold > 0)).map toString
   let pend := ts.map (fun u => RSpin.pcName (s.thr u).pc)
   let owner := match s.sh.owner with | some o => toString o | .none => "-"
-  s!"ok {ev.acc} ret={ev.ret} next={RSpin.pcName (s.thr t).pc} flag={if s.sh.flag then 1 else 0} owner={owner} count={s.sh.count} holds={csvOr holds} pend={csvOr pend}"
+  let pos := ts.map (fun u => toString (s.thr u).rest.length)
+  s!"ok {ev.acc} ret={ev.ret} next={RSpin.pcName (s.thr t).pc} flag={if s.sh.flag then 1 else 0} owner={owner} count={s.sh.count} holds={csvOr holds} pend={csvOr pend} left={csvOr pos}"
+
+/-- Breadth-first exploration of the state graph of a machine (driver only). -/
+partial def exploreLoop {σ} (k : Nat) (stepFn : σ → Nat → σ) (key : σ → String) (active : σ → Nat → Bool)
+    (limit : Nat) (queue : Array (Nat × σ)) (qi : Nat) (seen : Std.HashMap String Nat) (edges : Array String) :
+    Option (Nat × Array String) :=
+  if h : qi < queue.size then
+    let (i, s) := queue[qi]
+    let (queue, seen, edges) := (List.range k).foldl (fun (acc : Array (Nat × σ) × Std.HashMap String Nat × Array String) t =>
+      let (queue, seen, edges) := acc
+      if active s t then
+        let s' := stepFn s t
+        let ky := key s'
+        match seen[ky]? with
+        | some j => (queue, seen, edges.push s!"{i} {t} {j}")
+        | none =>
+          let j := seen.size
+          (queue.push (j, s'), seen.insert ky j, edges.push s!"{i} {t} {j}")
+      else acc) (queue, seen, edges)
+    if seen.size > limit then none else exploreLoop k stepFn key active limit queue (qi + 1) seen edges
+  else some (seen.size, edges)
+
+def explore {σ} (k : Nat) (stepFn : σ → Nat → σ) (key : σ → String) (active : σ → Nat → Bool) (init : σ) : String :=
+  match exploreLoop k stepFn key active 200000 #[(0, init)] 0 (({} : Std.HashMap String Nat).insert (key init) 0) #[] with
+  | some (n, edges) => s!"ok n={n} | {";".intercalate edges.toList}"
+  | none => "err too-large"
+
+def spinKey (k : Nat) (s : Spin.Sys) : String :=
+  toString (repr (s.flag, (List.range k).map s.thr))
+
+def rspinKey (k : Nat) (s : RSpin.Sys) : String :=
+  toString (repr (s.sh, (List.range k).map s.thr))
 
 def maxThreads : Nat := 8
 def maxAddr : Nat := 64
@@ -95,6 +132,11 @@ def step (st : St) (line : String) : St × String :=
         else (st, "bad-op")
       | .none => (st, "bad-op")
     | none => (st, "bad-op")
+  | ["graph"] =>
+    match st.scn with
+    | .spin k s _ => (st, explore k (fun s t => (Spin.step s t).1) (spinKey k) (fun s t => (s.thr t).pc != .done) s)
+    | .rspin k s _ => (st, explore k (fun s t => (RSpin.step s t).1) (rspinKey k) (fun s t => (s.thr t).pc != .done) s)
+    | .none => (st, "bad-op")
   | ["ident", op, x] =>
     match x.toNat? with
     | some x =>
